@@ -268,14 +268,14 @@ PROPS = {
     "C02": {
         "extractors": ["ladders", "opcodes", "flags", "constants"],
         "harness": "C02",
-        "theorems": ["ChiaModel.C02.conservation", "ChiaModel.C02.accepted_invariants", "ChiaModel.C11.canon_unique",
+        "theorems": ["ChiaModel.C02.conservation", "ChiaModel.C02.accepted_invariants", "ChiaModel.C02.native_invariants", "ChiaModel.C02.spendbundle_invariants", "ChiaModel.C02.legacy_invariants", "ChiaModel.C11.canon_unique",
                      "ChiaModel.C11.coinIdAmount_canon"],
         "gen_theorems": ["ChiaModel.C11.coinIdAmount_canon"],
-        "open": ["puzzle hash = tree hash of the revealed puzzle for run_block_generator2 / run_spendbundle (needs the native-loop model of C07/C08)"],
+        "open": [],
         "trivial": r"^(REJECT|bad-op|bad-tree)",
         "rule": "C01's generator biased to value flow: amounts from {0,1,2^32,2^63,2^64-1,...} so sums cross 2^64, many CREATE_COINs per spend with repeated (puzzle hash, amount), repeated coins, RESERVE_FEE near the excess; on every accepted implementation result the harness additionally asserts the five facts directly (totals are sums, fee+additions<=removals, distinct coin ids, distinct outputs per spend, coin id = sha256(parent|ph|canonical amount) computed independently) and marks the line if one fails. non-trivial = distinct accepted case",
-        "level_text": "Proof: for every tree whose atoms are byte strings, every flag set, both visitors and every cost limit, an accepting run of the parse_spends model satisfies: additions + reserve fee <= removals; removal/addition totals and the condition cost are the sums over the listed spends and created coins; coin ids pairwise distinct; no spend creates two coins with equal (puzzle hash, amount); every coin id = SHA-256(parent | puzzle hash | minimal big-endian amount). Proved by induction over the spend and condition loops with a bundle invariant (unbounded sizes, Nat arithmetic so no wrap-around is assumed away: amounts are < 2^64 by the sanitizer theorem). The model is tied to the code by correspondence on generated trees.",
-        "level_note": "Trusted: Lean kernel + standard axioms; model = code only on the cases run (summary fields incl. coin ids and totals are compared on every case); u128 accumulators of the Rust code are modelled as unbounded Nat - overflow would need > 2^64 spends. Entry points other than parse_spends reach the same process_single_spend; their own loops are covered under C07/C08.",
+        "level_text": "Proof: for every tree whose atoms are byte strings, every flag set, both visitors and every cost limit, an accepting run of the parse_spends model satisfies: additions + reserve fee <= removals; removal/addition totals and the condition cost are the sums over the listed spends and created coins; coin ids pairwise distinct; no spend creates two coins with equal (puzzle hash, amount); every coin id = SHA-256(parent | puzzle hash | minimal big-endian amount). Proved by induction over the spend and condition loops with a bundle invariant (unbounded sizes, Nat arithmetic so no wrap-around is assumed away: amounts are < 2^64 by the sanitizer theorem). The same conclusions (predicate Invariants) are proved for the models of the other entry points: run_block_generator2 (native_invariants: additionally the i-th reported puzzle hash is the tree hash of the i-th revealed puzzle), run_spendbundle (spendbundle_invariants: additionally reported puzzle hash = tree hash of the revealed puzzle = puzzle hash declared by the coin) and run_block_generator (legacy_invariants), for every interpreter result (a universally quantified parameter) whose atoms are byte strings. The model is tied to the code by correspondence on generated trees (parse_spends here, the execution paths under C07/C08/C09).",
+        "level_note": "Trusted: Lean kernel + standard axioms; model = code only on the cases run (summary fields incl. coin ids and totals are compared on every case); u128 accumulators of the Rust code are modelled as unbounded Nat - overflow would need > 2^64 spends. The CLVM interpreter (clvmr) is external: its result for the generator / each puzzle is a parameter of the path models, so the theorems hold for whatever it returns. validate_clvm_and_signature = run_spendbundle + signature check (C05).",
     },
     "C03": {
         "extractors": ["ladders", "opcodes", "flags", "constants"],
